@@ -36,4 +36,10 @@ PROPS["C05"] = {
     "assumptions": ["oracle: grid Dijkstra over (cell, heading) with in-place U-turn = 2 bends, margin of 2 cells around the grid (oracle/geom.h)"],
     "parts": [{"name": "routing", "src": "c03_routing.cpp", "quick": T(100, 30, ["--prop", "C05"], 1000), "thorough": T(1500, 60, ["--prop", "C05"], 1000)}],
 }
+PROPS["C16"] = {
+    "rule": "every ordered 3- and 4-tuple of points of the 6x6 integer grid for vecDir, colinear, pointOnLine, inBetween, segmentIntersect (+argument symmetries), segmentShapeIntersect (both flag values), segmentIntersectPoint (+coordinates, symmetry), rayIntersectPoint, cornerSide, inValidRegion, linesegment::LineSegment::Intersect; every triangle and simple quadrilateral on the 4x4 grid x every half-grid query point for inPoly (both countBorder) and inPolyGen; all re-run under exactly representable transforms (mirror, axis swap, x3+offset, x2^10, x2^20, x(2^20-1)+offset, translation by 2^30, anisotropic). Non-trivial = degenerate tuples (collinear triple / query point on a polygon border).",
+    "bounds": {"quick": "9 transforms", "thorough": "30 transforms (every 2^k, k<=20, odd/prime multipliers)"},
+    "assumptions": ["reference = the documented/used meaning of each predicate evaluated in exact 64-bit integer arithmetic (harness/c16_geometry.cpp); pointOnLine/inBetween mean the OPEN segment (every caller adds the endpoints itself)", "random coordinates up to 2^20 (sampling) are replaced by exhaustive grids under scalings up to 2^20"],
+    "parts": [{"name": "geometry", "src": "c16_geometry.cpp", "quick": T(100, 60, [], 1000), "thorough": T(1200, 120, [], 1000)}],
+}
 NOT_APPLICABLE = {}
